@@ -72,27 +72,38 @@ def gen_mm(r, n):
 
 
 def gen_dt(r, n):
-    """slots 0..3 row references, 10..11 selections"""
+    """slots 0..3 row references, 10..11 selections.  All values are distinct (sorting is not stable)"""
     cases = []
     for _ in range(n):
         ops = []
+        uniq = [1000]
+        def fresh():
+            uniq[0] += r.range(1, 9); return uniq[0]
         for v in range(r.choice([0, 1, 3, 6, 20])):
             ops.append('addrow,%d' % (v * 7 + 1))
         ops += ['select,10', 'select,11']
         for _ in range(r.range(6, 16)):
-            t = r.below(22); s = r.below(4); ss = 10 + r.below(2)
-            if t in (0, 1, 2): ops.append('ref,%d,%d' % (r.choice([0, 1, 2, 5, 19, 20, 21]), s))
+            t = r.below(32); s = r.below(4); ss = 10 + r.below(2)
+            if t == 22: ops.append('selectif,%d,%d' % (r.choice([2, 3, 7]), ss))
+            elif t == 23: ops.append('selofsel,%d,%d,%d' % (ss, r.choice([2, 3, 5]), 10 + r.below(2)))
+            elif t in (24, 25): ops.append('selsort,%d' % ss)
+            elif t in (26, 27): ops.append('selsum,%d' % ss)
+            elif t == 28: ops.append('selrev,%d' % ss)
+            elif t == 29: ops.append('selrm,%d,%d,%d' % (ss, r.choice([0, 1, 2, 7]), r.choice([0, 1, 2, 9])))
+            elif t == 30: ops.append('selcount,%d' % ss)
+            elif t == 31: ops.append('rmsel,%d' % ss)
+            elif t in (0, 1, 2): ops.append('ref,%d,%d' % (r.choice([0, 1, 2, 5, 19, 20, 21]), s))
             elif t == 3: ops.append('select,%d' % ss)
             elif t == 4: ops.append('foreign,%d' % s)
             elif t in (5, 6): ops.append('selref,%d,%d,%d' % (ss, r.choice([0, 1, 2, 6, 30]), s))
             elif t in (7, 8, 9): ops.append('read,%d' % s)
             elif t == 10: ops.append('number,%d' % s)
-            elif t == 11: ops.append('addrow,%d' % r.below(100))
-            elif t == 12: ops.append('insert,%d,%d' % (r.choice([0, 1, 3, 6, 7, 50]), r.below(100)))
+            elif t == 11: ops.append('addrow,%d' % fresh())
+            elif t == 12: ops.append('insert,%d,%d' % (r.choice([0, 1, 3, 6, 7, 50]), fresh()))
             elif t in (13, 14): ops.append('rmref,%d,%d' % (s, r.below(2)))
             elif t == 15: ops.append('rmnum,%d' % r.choice([0, 1, 2, 6, 40]))
-            elif t == 16: ops.append('updref,%d,%d' % (s, r.below(100)))
-            elif t == 17: ops.append('updnum,%d,%d' % (r.choice([0, 1, 2, 6, 40]), r.below(100)))
+            elif t == 16: ops.append('updref,%d,%d' % (s, fresh()))
+            elif t == 17: ops.append('updnum,%d,%d' % (r.choice([0, 1, 2, 6, 40]), fresh()))
             elif t == 18: ops.append('rmif,%d' % r.choice([2, 3, 1000003]))
             elif t == 19: ops.append('clear')
             else: ops.append('count')
